@@ -4,7 +4,8 @@
 (*     crash possible at every step boundary of every call, clean restarts    *)
 (*     and recoveries.  hist records the calls, the crash (with the program   *)
 (*     counter it happened at), restarts and recoveries; one script per       *)
-(*     Recover transition (EmitRec) or per operation sequence (EmitLeaf).     *)
+(*     Recover transition (EmitRec): with VIEW ViewSeq one per transition of  *)
+(*     the state graph, without a VIEW one per operation history.             *)
 (*  Mode "conc" (C18): every thread of Procs performs one creation against a  *)
 (*     small quota; every interleaving of the atomic steps, then recovery on  *)
 (*     the same manager.  hist records which thread takes each step.          *)
